@@ -175,7 +175,30 @@ def function_paths(fn: ast.FunctionDef | ast.Lambda) -> list[Path]:
     body = list(fn.body)
     if body and isinstance(body[0], ast.Expr) and isinstance(body[0].value, ast.Constant) and isinstance(body[0].value.value, str):
         body = body[1:]
-    return enum_paths(body)
+    return [p for p in enum_paths(body) if _feasible(p)]
+
+
+def _feasible(path: 'Path') -> bool:
+    """False when a branch condition of the path is a constant, given the straight-line assignments before it, and the
+    path takes the other arm (`ok = False; ...; if not ok:` - the shape single-exit helpers take once they are inlined)."""
+    from .terms import NotEvaluable, eval_term, path_env, term
+
+    if not any(ev[0] == 'cond' for ev in path.events):
+        return True
+    env: dict = {}
+    for ev in path.events:
+        if ev[0] == 'cond':
+            t = term(ev[1], env)
+            try:
+                v = eval_term(t, {})
+            except NotEvaluable:
+                v = None
+            except Exception:  # noqa: BLE001 - anything odd in a condition: keep the path
+                v = None
+            if v is not None and bool(v) != ev[2]:
+                return False
+        env = path_env(Path([ev]), env)
+    return True
 
 
 def exception_name(node: ast.AST | None) -> str | None:
